@@ -101,13 +101,16 @@ def check(col: Collector, tier: str):
                        "two declarations of different kinds and the same name must be accepted wherever along the chain they are attached")
     import_obligations(col, "C08.R6", "c03", lambda o: o.construct == "_extract_column_names",
                        "qastle writes a tuple of column names as a list: the two wire formats agree only if tuple and list are read alike")
+    import_obligations(col, "C08.R6", "c11", lambda o: o.detail == "specification-includes-copied",
+                       "qastle writes a tuple of include files as a list: a test on the exact container type reads the two wire formats differently")
     import_obligations(col, "C08.R6", "c10", lambda o: o.detail == "registered-under-type-and-method-with-deref-count",
                        "a default that is carried over from the previous metadata item makes the result depend on the order the declarations are met in")
     from sa.props import c15
     sub15 = Collector("C08")
     c15.check(sub15, tier)
     for o in sub15.obs:
-        if o.detail in ("guard:dependencies-subset-of-seen", "every-copy-merges-its-dependencies"):
+        if o.detail in ("guard:dependencies-subset-of-seen", "every-copy-merges-its-dependencies", "same-name-different-script-raises",
+                        "block-registered-under-its-name"):
             col.add("C08.R6", o.construct, o.detail, o.ok, o.msg + " (the same block may be declared at several places along the chain: "
                     "the order of emission must not depend on which declaration is met first)", o.loc)
 
